@@ -229,6 +229,59 @@ theorem legit_target_served (w : World) (id : ConnIdent) (m : PortMapping) (tid 
   · rw [hb]; exact handleExistingBridge_attach w _
   · simp [openTunnel, openTunnelDyn, findControlConnection, hc, ha, processCrossNodeForward, hn]
 
+/-! ## A revocation is not undone by other updates of the mapping record -/
+
+/-- **Revocation survives concurrent updates.**  Usage recording, traffic-statistics reports, status changes and
+the revocation itself are whole-record read-modify-writes; under the per-mapping lock they take effect one after
+the other.  Whatever updates come before and after the revocation, in whatever order: the record is revoked
+afterwards, and every TunnelOpen that addresses a tunnel of that mapping — any identity, any credentials, any
+tunnel state — is refused (failure ack, nothing attached, no traffic). -/
+theorem revoke_survives_updates (w : World) (m : PortMapping) (pre post : List Update)
+    (id : ConnIdent) (req : Req) (ts : TunnelState) (hwf : identWF id = true)
+    (hw : w.getPortMapping (tunnelMappingID req ts) = some (runSerial (pre ++ .revoke :: post) m)) :
+    (runSerial (pre ++ .revoke :: post) m).IsRevoked = true ∧
+    openTunnel w id req ts = refuse ∧
+    holdsRevoked (runSerial (pre ++ .revoke :: post) m).IsRevoked ((openTunnel w id req ts).obs ts) = true := by
+  have hr : (runSerial (pre ++ .revoke :: post) m).IsRevoked = true := by
+    rw [runSerial_append]
+    have : runSerial (.revoke :: post) (runSerial pre m) = runSerial post (Update.revoke.apply (runSerial pre m)) := by
+      simp [runSerial, List.foldl]
+    rw [this]
+    exact runSerial_revoked post _ (by simp [Update.apply])
+  have href : openTunnel w id req ts = refuse :=
+    unusable_mapping_refused w id req ts hwf (fun m' hm' => by
+      rw [hw] at hm'; cases hm'; exact revoked_unusable hr)
+  refine ⟨hr, href, ?_⟩
+  rw [href, hr]; rfl
+
+def mM : PortMapping := ⟨"M", 11, 22, "s3cretM", "active", false, none⟩
+
+/-- As found (no lock): the usage update of a tunnel open reads the record, the revocation reads, writes and
+returns, the usage update writes its stale copy back — the record is active again … -/
+theorem asFound_revoke_lost :
+    (runInterleaved [.usage, .revoke] [.read 0, .read 1, .write 1, .write 0] mM).IsRevoked = false := by decide
+
+/-- … and the target client presenting the secret is attached to the waiting tunnel: the property fails. -/
+theorem asFound_revoke_lost_witness :
+    holdsRevoked (runInterleaved [.usage, .revoke] [.read 0, .read 1, .write 1, .write 0] mM).IsRevoked
+      ((openTunnel ⟨[runInterleaved [.usage, .revoke] [.read 0, .read 1, .write 1, .write 0] mM], 1000, "node-A"⟩
+          ⟨true, 22, true⟩ ⟨true, "M", "verif-tunnel-01", "s3cretM", ""⟩ (.bridge "M" false)).obs (.bridge "M" false))
+      = false := by decide
+
+-- the same threads, not interleaved, are what `runSerial` says (the interleaved semantics is not vacuous)
+example : runInterleaved [.usage, .revoke] [.read 0, .write 0, .read 1, .write 1] mM = runSerial [.usage, .revoke] mM := by decide
+example : runInterleaved [.usage, .revoke] [.read 1, .write 1, .read 0, .write 0] mM = runSerial [.revoke, .usage] mM := by decide
+example : (runSerial [.stats, .revoke, .usage, .status "active"] mM).IsRevoked = true := by decide
+
+/-- the per-mapping lock is the first thing each of these updates takes, before it reads -/
+theorem skel_rmw_locked :
+    Skel.conncode_RecordMappingUsage =
+      ["repos.LockPortMapping", "portMappingService.GetPortMapping", "portMappingService.UpdatePortMapping"] ∧
+    Skel.conncode_RevokeMapping =
+      ["repos.LockPortMapping", "portMappingService.GetPortMapping", "mapping.Revoke", "portMappingService.UpdatePortMapping"] ∧
+    Skel.repo_UpdatePortMappingStats = ["LockPortMapping", "r.GetPortMapping", "r.UpdatePortMapping"] ∧
+    Skel.repo_UpdatePortMappingStatus = ["LockPortMapping", "r.GetPortMapping", "r.UpdatePortMapping"] := by decide
+
 /-! ## T2: the order of effectful steps in the source is the one the model assumes -/
 
 /-- `handleTunnelOpen`: control-connection lookup and `HandleTunnelOpen` come BEFORE the bridge lookup, the
